@@ -7,8 +7,12 @@ import gen
 from common import L, ModelRaise, exc_kind
 
 RULE = ("convex vertex sets from gen.convex_solid (ellipsoid/lattice/zonotope/box/prism/antiprism/(di)pyramid/"
-        "needle/plate/simplex; random rigid motion, offset <=10 diameters, scale 1e-3..1e3, permuted) plus tabulated "
-        "solids; distinct = distinct vertex arrays; non-trivial = >=4 vertices in convex position")
+        "needle/plate/simplex; random rigid motion, offset <=10 diameters, scale 1e-3..1e3, permuted), thin solids "
+        "(needles / flats of aspect 1e-3..1e-6: axis aligned and centred, (nearly) rotated, offset), lattice polytopes "
+        "and zonotopes with coordinates perturbed by 1e-16.5..1e-6 (nearly coplanar facets), zonotopes with 6-7 "
+        "generators, sizes 2^+-15..30, plus tabulated solids; a third of the cases reached through mutators; a third "
+        "followed through a random history of size / centroid setters; distinct = distinct vertex arrays; "
+        "non-trivial = >=4 vertices in convex position")
 ASSUMPTIONS = [
     "exact integrals over conv(V) are taken to be the sums of tetrahedron closed forms (Spec/Solid.lean) over the cone "
     "tetrahedralisation of an independently computed hull, evaluated exactly over Q by the driver",
@@ -20,21 +24,40 @@ ASSUMPTIONS = [
     "answer is recorded as a contract failure. The cone is taken over S itself (not over the independent hull) because "
     "two correct triangulations of a non-triangular facet may use different diagonals and then differ as chains; "
     "how often the independent hull is chain-equal to S is counted (chain:indep-hull-*)",
+    "the tetrahedron closed forms the Q oracle evaluates are theorems (Lemmas/SolidIntegral.lean: they are the iterated "
+    "integrals of 1, x_i, x_i x_j over the tetrahedron)",
+    "thin solids: the natural scale of volume / inertia is sharpened to min(Ls^3, 8 Ls A) (A = surface area: the "
+    "cancellation in a signed-tetrahedron sum is bounded by lever x area); axis-aligned centred thin solids are "
+    "compared RELATIVELY per component (volume, area, every face area, principal moments) at 1e-9, with the slack "
+    "64 eps V |c|^2 for the cancellation inside utils.translate_inertia_tensor (|d|^2 - d_i^2), which is within the "
+    "normwise conditioning of the input",
+    "Qhull contract per case: hull.volume and hull.area of scipy's hull of the same array equal the model's "
+    "signed-tetrahedron volume / triangle-area sum on the implementation's simplices (hull.volume is overwritten by "
+    "_calculate_signed_volume before it can be read, hull.area is what surface_area returns)",
+    "histories: the model (CPH.construct / CPH.step, Float) is run on the same operations as the implementation "
+    "(correspondence after every step, raising setters included) and the implementation's values after the history "
+    "are compared with the exact Q oracle on its final vertices; hypothesis of cp_history_exact (a radius getter "
+    "returns a positive number) is checked per operation",
+    "face groups: CP.combineSimplices (Float) on scipy's hull.equations is compared with _coplanar_simplices of a "
+    "freshly built object, and CP.groupsPartition (hypothesis of cp_surface_area_eq_sum_faces_checked) is evaluated on "
+    "the implementation's groups; a non-partition is a recorded contract failure (the per-face oracle judges it)",
 ]
+
+EPS = 2.0 ** -52
 
 
 def tri_tokens(tris):
     return L([np.asarray(t, dtype=float) for t in tris])
 
 
-def observe(v, ctx=None):
+def observe(v, ctx=None, p_hist=0.33):
     import coxeter
     import history
     from common import read_shuffled
     p = coxeter.shapes.ConvexPolyhedron(v)
     # a third of the cases: the same polyhedron reached through a history (scaled, shifted copy; everything read once;
     # size and centroid setters), and always: the measures read in an order drawn per case
-    p, how = history.maybe_via_history(p, history.rng_for(v), 0.33, ctx)
+    p, how = history.maybe_via_history(p, history.rng_for(v), p_hist, ctx)
     obs, _order = read_shuffled({
         "volume": lambda: float(p.volume),
         "area": lambda: float(p.surface_area),
@@ -47,17 +70,60 @@ def observe(v, ctx=None):
     return p, obs
 
 
+def thinness(v):
+    """(sigma_2/sigma_1, sigma_3/sigma_1) of the centred vertex cloud: small second ratio = needle, small third = flat"""
+    sv = np.linalg.svd(np.asarray(v, dtype=float) - np.mean(v, axis=0), compute_uv=False)
+    return float(sv[1] / sv[0]), float(sv[2] / sv[0])
+
+
+THIN = 3e-3
+
+
+def rho_thin(v, Ls, vol, aligned):
+    """relative accuracy the implementation's formulas deliver on a THIN solid (sigma_3/sigma_1 < 3e-3), 0 otherwise:
+    64 eps Ls^3 / V for the determinant volume the centroid is divided by, plus 64 eps (sigma_1/sigma_2)^2 for the cross
+    product normals of a needle that is not axis aligned (known finding, notes/C01.md)"""
+    a2, a3 = thinness(v)
+    if a3 >= THIN:
+        return 0.0
+    r_ = 64 * EPS * Ls ** 3 / max(abs(vol), 1e-300)
+    if a2 < THIN and not aligned:
+        r_ += 64 * EPS / a2 ** 2
+    return r_
+
+
 def eval_case(ctx, case):
     v = np.array(case["vertices"], dtype=float)
+    info = case.get("info", {})
     d = gen.diameter(v)
     off = float(np.linalg.norm(v.mean(axis=0)))
     Ls = d + off
+    thin_aligned = bool(info.get("thin_aligned"))
+    needle_rot = str(info.get("kind", "")).startswith("thin:needle:") and not thin_aligned
     try:
-        p, obs = observe(v, ctx)
+        p, obs = observe(v, ctx, 0.0 if thin_aligned else 0.33)
     except Exception as e:  # a valid convex set must construct
         ctx.fail("ConvexPolyhedron.__init__:raises", "constructor raised %s on a set in convex position" % exc_kind(e),
                  case, repr(e))
         return
+    # the object's CURRENT vertices (equal to the case's up to a few roundings when it was reached through mutators):
+    # the exact oracle integrates over their hull
+    pv = np.array(p.vertices, dtype=float)
+    tets, tris, hull = gen.cone_tets(pv)
+    exact_area = float(sum(np.linalg.norm(np.cross(t[1] - t[0], t[2] - t[0])) / 2 for t in tris))
+    sV = Ls ** 3
+    sI = Ls ** 2 * d ** 3
+    # thin solids (generated needles / flats): what the implementation's formulas deliver in double precision is
+    # limited by two cancellations (see notes/C01.md, known finding): the signed-tetrahedron volume is a sum of 3x3
+    # determinants of vertex coordinates, accurate to ~eps Ls^3, i.e. only to eps Ls^3 / V RELATIVE to the volume, and
+    # the centroid divides by it; for a needle that is not axis aligned the simplex normals (cross products in the
+    # global frame) lose their component along the needle, ~eps (L/t)^2.  `rho` is that relative loss (0 for every
+    # other kind of solid): deviations beyond 1e-9 x scale but within rho x scale are reported as the KNOWN FINDING,
+    # beyond it as a VIOLATION.
+    rho = rho_thin(pv, Ls, float(hull.volume), thin_aligned)
+    if rho > 0:
+        ctx.count("thin:geometrically-thin")
+    tC = (1e-9 + rho) * Ls
     # ---------------- B: model (Float) on the implementation's own triangles
     S = p.vertices[p.simplices]
     try:
@@ -66,11 +132,15 @@ def eval_case(ctx, case):
         ctx.disagree("cp.measures", case, "model raised " + e.kind)
         return
     m_sv, m_vol, m_cen, m_area, m_I = r[0], r[1], np.array(r[2:5]), r[5], np.array(r[6:15]).reshape(3, 3)
-    if not ctx.close_enough(obs["volume"], m_vol, Ls ** 3):
+    if not ctx.close_enough(obs["volume"], m_vol, sV):
         ctx.disagree("cp.measures:volume", case, [obs["volume"], m_vol])
-    if not ctx.close_enough(obs["centroid"], m_cen, Ls):
+    tI = 1e-9 * sI + 4 * rho * abs(m_vol) * Ls ** 2
+    # B only: the Float run of the model evaluates the 3x3 determinants by cofactors (LAPACK's LU in the implementation
+    # is more accurate): its own volume is good to ~eps Ls^3, and its centroid divides by it
+    rhoB = 64 * EPS * Ls ** 3 / max(abs(m_vol), 1e-300)
+    if not ctx.close_enough(obs["centroid"], m_cen, tC + rhoB * Ls, tol=1.0):
         ctx.disagree("cp.measures:centroid", case, [obs["centroid"], m_cen])
-    if not ctx.close_enough(obs["inertia"], m_I, Ls ** 2 * d ** 3):
+    if not ctx.close_enough(obs["inertia"], m_I, tI + 4 * rhoB * abs(m_vol) * Ls ** 2, tol=1.0):
         ctx.disagree("cp.measures:inertia", case, [obs["inertia"], m_I])
     if not ctx.close_enough(obs["area"], m_area, d ** 2, tol=1e-9):
         ctx.contract_failures.append({"contract": "hull.area == sum of simplex areas", "got": [obs["area"], m_area]})
@@ -79,13 +149,23 @@ def eval_case(ctx, case):
         ctx.disagree("cp.face_area_total", case, [obs["total_area"], m_area])
     for k, simp_ids in enumerate(p._coplanar_simplices):
         fr = ctx.driver.F("cp.face", tri_tokens(S[simp_ids]))
-        if not ctx.close_enough(obs["face_areas"][k], fr[0], d ** 2):
+        fa_scale = abs(fr[0]) if thin_aligned else d ** 2
+        if not ctx.close_enough(obs["face_areas"][k], fr[0], fa_scale):
             ctx.disagree("cp.face:area", case, [k, obs["face_areas"][k], fr[0]])
         if not ctx.close_enough(obs["face_centroids"][k], np.array(fr[1:4]), Ls):
             ctx.disagree("cp.face:centroid", case, [k, obs["face_centroids"][k], fr[1:4]])
+    if thin_aligned:
+        # the same formulas in the same order: the Float model agrees component by component
+        ok = abs(obs["volume"] - m_vol) <= 1e-9 * abs(m_vol) and abs(obs["area"] - m_area) <= 1e-9 * m_area
+        slack = 64 * EPS * m_vol * float(np.dot(m_cen, m_cen))
+        for a in range(3):
+            for b in range(3):
+                ok = ok and abs(obs["inertia"][a, b] - m_I[a, b]) <= 1e-9 * np.sqrt(abs(m_I[a, a] * m_I[b, b])) + slack
+        if not ok:
+            ctx.disagree("cp.measures:relative:thin-aligned", case, [obs["volume"], m_vol, obs["inertia"], m_I])
     # list / int / total forms of get_face_area
     nf = len(p.faces)
-    sel = [0, nf - 1]
+    sel = [nf - 1, 0, nf // 2, 0]        # unsorted, with a repetition: one value per requested index, in that order
     fa_list = np.array(p.get_face_area(sel), dtype=float)
     fa_one = float(p.get_face_area(nf - 1))
     if not (ctx.close_enough(fa_list, obs["face_areas"][sel], d ** 2)
@@ -109,9 +189,23 @@ def eval_case(ctx, case):
         ctx.contract_failures.append({"contract": "hypotheses of cp_measures_exact_checked on the implementation's "
                                                   "simplices (exact, Q)", "got": hyp,
                                       "vertices": v.tolist() if len(v) <= 12 else len(v)})
+    # the partition hypothesis of cp_surface_area_eq_sum_faces_checked on the implementation's face groups
+    groups = [[int(i) for i in g] for g in p._coplanar_simplices]
+    part = bool(ctx.driver.F("cp.partition", len(S), L([L(g) for g in groups]))[0])
+    ctx.count("faces:groups-partition" if part else "faces:groups-NOT-a-partition")
+    if not part:
+        ctx.contract_failures.append({"contract": "_coplanar_simplices is a partition of the simplices",
+                                      "got": groups if len(groups) <= 20 else len(groups),
+                                      "vertices": v.tolist() if len(v) <= 12 else len(v)})
+    # Qhull contract: hull.volume / hull.area (scipy's hull of the same array) vs the model's own sums
+    if not ctx.close_enough(float(hull.volume), m_vol, sV):
+        ctx.contract_failures.append({"contract": "hull.volume == |signed-tetrahedron sum|",
+                                      "got": [float(hull.volume), m_vol]})
+    if not ctx.close_enough(float(hull.area), m_area, d ** 2):
+        ctx.contract_failures.append({"contract": "hull.area == sum of simplex areas (scipy hull)",
+                                      "got": [float(hull.area), m_area]})
 
     # ---------------- C: implementation vs exact spec (Q) over an independent tetrahedralisation
-    tets, tris, hull = gen.cone_tets(v)
     # does the independent hull triangulate every facet like the implementation does? (informative only:
     # different diagonals inside a non-triangular facet are both right)
     same = ctx.driver.Q("chain.check", tri_tokens(S), L([np.asarray(t) for t in tets]))[0]
@@ -120,42 +214,54 @@ def eval_case(ctx, case):
     vol = q[0]
     cen = np.array([float(x) for x in q[19:22]])
     I = np.array([float(x) for x in q[10:19]]).reshape(3, 3)
-    if not ctx.close_enough(obs["volume"], float(vol), Ls ** 3):
+    if not ctx.close_enough(obs["volume"], float(vol), sV):
         ctx.fail("ConvexPolyhedron.volume:value", "volume differs from the exact integral", case,
                  [obs["volume"], float(vol)])
     if not ctx.close_enough(obs["centroid"], cen, Ls):
-        ctx.fail("ConvexPolyhedron.centroid:value", "centroid differs from the exact integral", case,
-                 [obs["centroid"], cen])
-    if not ctx.close_enough(obs["inertia"], I, Ls ** 2 * d ** 3):
+        if rho > 0 and ctx.close_enough(obs["centroid"], cen, tC, tol=1.0) and ctx.close_enough(m_cen, cen, tC, tol=1.0):
+            # KNOWN FINDING: within the cancellation bound of the formulas, and the Float model (same formulas) is off
+            # by the same order
+            ctx.fail("ConvexPolyhedron.centroid:accuracy:thin-solid", "centroid of a thin solid differs from the exact "
+                     "integral by more than 1e-9 of the size (cancellation in the determinant volume / in the cross "
+                     "products)", case, [obs["centroid"], cen, info.get("aspect"), rho])
+            ctx.count("thin:centroid-accuracy-finding")
+        else:
+            ctx.fail("ConvexPolyhedron.centroid:value", "centroid differs from the exact integral", case,
+                     [obs["centroid"], cen])
+    if not ctx.close_enough(obs["inertia"], I, tI, tol=1.0):
         ctx.fail("ConvexPolyhedron.inertia_tensor:value", "inertia tensor differs from the exact integral", case,
                  [obs["inertia"], I])
+    Vf = float(vol)
+    if thin_aligned:
+        # axis-aligned, centred needle / flat: every principal moment, the volume, the area against its OWN size
+        bad = []
+        if abs(obs["volume"] - Vf) > 1e-9 * Vf:
+            bad.append(["volume", obs["volume"], Vf])
+        if abs(obs["area"] - exact_area) > 1e-9 * exact_area:
+            bad.append(["area", obs["area"], exact_area])
+        slack = 64 * EPS * Vf * float(np.dot(cen, cen))
+        for a in range(3):
+            for b in range(3):
+                if abs(obs["inertia"][a, b] - I[a, b]) > 1e-9 * np.sqrt(abs(I[a, a] * I[b, b])) + slack:
+                    bad.append(["inertia", a, b, float(obs["inertia"][a, b]), float(I[a, b])])
+        if bad:
+            ctx.fail("ConvexPolyhedron:relative:thin-aligned", "a measure of an axis-aligned centred needle / flat "
+                     "differs from the exact integral relative to its own size", case, bad)
     # areas: independent facets = groups of hull simplices with equal plane (1e-9), area = |sum of area vectors|
-    exact_area = float(sum(np.linalg.norm(np.cross(t[1] - t[0], t[2] - t[0])) / 2 for t in tris))
     if not ctx.close_enough(obs["area"], exact_area, d ** 2):
         ctx.fail("ConvexPolyhedron.surface_area:value", "surface area differs from the hull's area", case,
                  [obs["area"], exact_area])
     if not ctx.close_enough(obs["total_area"], exact_area, d ** 2):
         ctx.fail("ConvexPolyhedron.get_face_area:total", "get_face_area('total') differs from the hull's area", case,
                  [obs["total_area"], exact_area])
-    facets = independent_facets(v, hull)
+    facets = independent_facets(pv, hull)
     # map every implementation face to the independent facet containing its vertices
-    sums = {}
-    cents = {}
-    for k, face in enumerate(p.faces):
-        key = None
-        fs = set(int(i) for i in face)
-        for fk, (vs, area, cent) in facets.items():
-            if fs <= vs:
-                key = fk
-                break
-        if key is None:
-            ctx.fail("ConvexPolyhedron.faces:not-a-facet", "a face is not contained in any hull facet", case,
-                     [k, sorted(fs)])
-            return
-        sums[key] = sums.get(key, 0.0) + obs["face_areas"][k]
-        cents.setdefault(key, []).append((obs["face_areas"][k], obs["face_centroids"][k]))
+    sums, cents, stray = facet_sums(p, obs, facets)
+    if stray is not None:
+        ctx.fail("ConvexPolyhedron.faces:not-a-facet", "a face is not contained in any hull facet", case, stray)
+        return
     for fk, (vs, area, cent) in facets.items():
-        if not ctx.close_enough(sums.get(fk, 0.0), area, d ** 2):
+        if not ctx.close_enough(sums.get(fk, 0.0), area, area if thin_aligned else d ** 2):
             ctx.fail("ConvexPolyhedron.get_face_area:value", "per-face areas differ from the facet's exact area", case,
                      [sorted(vs), sums.get(fk, 0.0), area])
             break
@@ -167,18 +273,35 @@ def eval_case(ctx, case):
                          case, [sorted(vs), c, cent])
                 break
 
+    # ---------------- _combine_simplices: the model's grouping on Qhull's equations vs a freshly built object
+    check_combine(ctx, case, v)
+
+    # ---------------- the state part: a random history of mutators, model and implementation side by side
+    if case.get("history"):
+        check_history(ctx, case, v)
+
     # ---------------- order independence (implementation metamorphic, exactness tolerance)
     perm = np.array(case.get("perm") or list(reversed(range(len(v)))))
     try:
-        p2, obs2 = observe(v[perm])
+        p2, obs2 = observe(v[perm], None, 0.0 if thin_aligned else 0.33)
         # informative: is the surface built from the permuted input the same 2-chain (same diagonals in every facet)?
         same2 = ctx.driver.Q("chain.eq", tri_tokens(S), tri_tokens(p2.vertices[p2.simplices]))[0]
         ctx.count("chain:permuted-input-chain-equal" if same2 else "chain:permuted-input-other-diagonals")
-        same = (ctx.close_enough(obs["volume"], obs2["volume"], Ls ** 3)
+        same = (ctx.close_enough(obs["volume"], obs2["volume"], sV)
                 and ctx.close_enough(obs["area"], obs2["area"], d ** 2)
-                and ctx.close_enough(obs["centroid"], obs2["centroid"], Ls)
-                and ctx.close_enough(obs["inertia"], obs2["inertia"], Ls ** 2 * d ** 3)
-                and ctx.close_enough(np.sort(obs["face_areas"]), np.sort(obs2["face_areas"]), d ** 2))
+                and ctx.close_enough(obs["centroid"], obs2["centroid"], 2 * tC, tol=1.0)
+                and ctx.close_enough(obs["inertia"], obs2["inertia"], 2 * tI, tol=1.0)
+                )
+        # per-face areas: facet by facet (a nearly coplanar facet may come out as one face for one order and as two for
+        # another: the facets, merged at 1e-9, are what does not depend on the order)
+        sums2, _c2, stray2 = facet_sums(p2, obs2, facets, relabel=perm)
+        same = same and stray2 is None and all(
+            ctx.close_enough(sums.get(fk, 0.0), sums2.get(fk, 0.0), area if thin_aligned else d ** 2)
+            for fk, (_vs, area, _cent) in facets.items())
+        if thin_aligned:
+            same = same and abs(obs["volume"] - obs2["volume"]) <= 1e-9 * obs["volume"] and all(
+                abs(obs["inertia"][a, a] - obs2["inertia"][a, a]) <= 1e-9 * abs(obs["inertia"][a, a])
+                + 64 * EPS * obs["volume"] * float(np.dot(obs["centroid"], obs["centroid"])) for a in range(3))
         if not same:
             ctx.fail("ConvexPolyhedron:order-dependence", "measures depend on the order of the input points", case,
                      [obs["volume"], obs2["volume"]])
@@ -186,12 +309,265 @@ def eval_case(ctx, case):
         ctx.fail("ConvexPolyhedron.__init__:raises", "constructor raised on a permutation of a valid set", case, repr(e))
 
 
+def check_combine(ctx, case, v):
+    """`_combine_simplices` (tolerance 2e-15 on Qhull's equations): CP.combineSimplices at Float on scipy's
+    hull.equations of the same array against `_coplanar_simplices` of a freshly built object (Qhull is deterministic:
+    the constructor saw the same equations)."""
+    import coxeter
+    from scipy.spatial import ConvexHull
+    try:
+        p0 = coxeter.shapes.ConvexPolyhedron(v)
+    except Exception:
+        return          # judged above
+    h = ConvexHull(np.array(v, dtype=float))
+    eqs = L([np.asarray(e, dtype=float) for e in h.equations])
+    mg = ctx.driver.F("cp.combine", eqs, 2e-15)
+    # parse the length-prefixed groups
+    it = iter(mg)
+    n = next(it)
+    model_groups = []
+    for _ in range(n):
+        k = next(it)
+        model_groups.append([next(it) for _ in range(k)])
+    impl_groups = [[int(i) for i in g] for g in p0._coplanar_simplices]
+    ctx.count("combine:checked")
+    if model_groups != impl_groups:
+        # rows with an equal first index come out of Python's set in an unspecified order: compare as sets then
+        if sorted(map(tuple, model_groups)) == sorted(map(tuple, impl_groups)):
+            ctx.count("combine:same-groups-other-order")
+        else:
+            ctx.disagree("cp.combine", case, [impl_groups if len(impl_groups) <= 30 else len(impl_groups),
+                                              model_groups if len(model_groups) <= 30 else len(model_groups)])
+    ngroups = len(impl_groups)
+    if ngroups < len(h.simplices):
+        ctx.count("combine:merged-faces")
+    flat = sorted(i for g in impl_groups for i in g)
+    if flat != list(range(len(h.simplices))):
+        ctx.count("combine:overlapping-groups")
+
+
+RADII = ("minimal_centered_bounding_sphere_radius", "maximal_centered_bounded_sphere_radius")
+
+
+def draw_history(rng, n_ops=None):
+    """a list of JSON-able operations; targets are relative factors resolved against the live object"""
+    ops = []
+    for _ in range(n_ops or int(rng.integers(1, 5))):
+        k = int(rng.integers(0, 6))
+        if k == 0:
+            ops.append({"op": "volume", "factor": float(np.exp(rng.uniform(-3, 3)))})
+        elif k == 1:
+            ops.append({"op": "surface_area", "factor": float(np.exp(rng.uniform(-2, 2)))})
+        elif k == 2:
+            ops.append({"op": RADII[int(rng.integers(2))], "factor": float(np.exp(rng.uniform(-1, 1)))})
+        elif k in (3, 4):
+            # target in units of the CURRENT diameter, |target| <= 10 diameters (the property's placement class)
+            t = rng.normal(size=3)
+            t *= float(min(10.0, np.exp(rng.uniform(-3, 2.3)))) / float(np.linalg.norm(t))
+            ops.append({"op": "centroid" if rng.random() < 0.7 else "center", "to": t.tolist(), "relative": True})
+        else:
+            # a refused target: the object must stay as it is
+            ops.append({"op": ["volume", "surface_area", RADII[0]][int(rng.integers(3))],
+                        "factor": [0.0, -1.0][int(rng.integers(2))]})
+    return ops
+
+
+def measures_of(p, order_key, aligned=False):
+    from common import read_shuffled
+    obs, _ = read_shuffled({
+        "volume": lambda: float(p.volume),
+        "area": lambda: float(p.surface_area),
+        "centroid": lambda: np.array(p.centroid, dtype=float),
+        "inertia": lambda: np.array(p.inertia_tensor, dtype=float),
+        "total_area": lambda: float(p.get_face_area("total")),
+        "face_sum": lambda: float(np.sum(p.get_face_area())),
+    }, order_key)
+    pv = np.array(p.vertices, dtype=float)
+    obs["diam"] = gen.diameter(pv)
+    obs["L"] = obs["diam"] + float(np.linalg.norm(pv.mean(axis=0)))
+    obs["rho"] = rho_thin(pv, obs["L"], obs["volume"], aligned)
+    return obs
+
+
+def check_history(ctx, case, v):
+    """The state part of the property: `_consume_hull`, `_rescale`, `centroid.setter`.  The same operations are applied
+    to a fresh object and to the model (CPH.construct / CPH.step at Float, one driver call); after EVERY step the
+    getters are compared (B), and after the last step the implementation is compared with the exact Q oracle on its
+    final vertices (C): whatever is cached and updated incrementally must describe the current solid."""
+    import coxeter
+    from scipy.spatial import ConvexHull
+    try:
+        p = coxeter.shapes.ConvexPolyhedron(v)
+    except Exception:
+        return
+    h = ConvexHull(np.array(v, dtype=float))
+    verts0 = np.array(p.vertices, dtype=float)
+    simplices = np.array(p.simplices, dtype=int)
+    toks = [L([x for x in verts0]), L([[int(a), int(b), int(c)] for a, b, c in simplices]),
+            float(h.volume), float(h.area)]
+    optoks = []
+    aligned0 = bool(case.get("info", {}).get("thin_aligned"))
+    impl = [(False, measures_of(p, [0] + verts0.tolist(), aligned0))]
+    ctx.count("history:cases")
+    for k, op in enumerate(case["history"]):
+        name = op["op"]
+        raised = False
+        if name in ("centroid", "center"):
+            d0 = gen.diameter(np.array(p.vertices))
+            target = np.array(op["to"], dtype=float) * (d0 if op.get("relative") else 1.0)
+            optoks += [3, target]
+            try:
+                setattr(p, name, target)
+            except Exception as e:  # noqa: BLE001
+                ctx.fail("ConvexPolyhedron.centroid.setter:raises", "the centroid setter raised %s" % exc_kind(e),
+                         case, [k, op])
+                return
+        else:
+            try:
+                cur = float(getattr(p, name))
+            except Exception as e:  # noqa: BLE001
+                kind = str(case.get("info", {}).get("kind", ""))
+                if kind.startswith("thin:") and isinstance(e, ValueError) and "centroid is not contained" in str(e):
+                    # consequence of the known finding: the reported centroid of a thin solid lies outside it
+                    ctx.fail("ConvexPolyhedron.centroid:accuracy:thin-solid", "maximal_centered_bounded_sphere "
+                             "refuses a thin solid: its reported centroid is outside the solid", case, [k, op, repr(e)])
+                    ctx.count("thin:centroid-accuracy-finding")
+                else:
+                    ctx.fail("ConvexPolyhedron.%s:raises" % name, "a radius getter raised %s on a convex polyhedron"
+                             % exc_kind(e), case, [k, op, repr(e)])
+                return
+            target = cur * op["factor"]
+            if name == "volume":
+                optoks += [0, target]
+            elif name == "surface_area":
+                optoks += [1, target]
+            else:
+                optoks += [2, cur, target]
+                if not cur > 0:
+                    ctx.contract_failures.append({"contract": "a radius getter returns a positive number "
+                                                              "(MOp.Valid, hypothesis of cp_history_exact)",
+                                                  "got": [name, cur]})
+            try:
+                setattr(p, name, target)
+            except ValueError:
+                raised = True
+            except Exception as e:  # noqa: BLE001
+                ctx.fail("ConvexPolyhedron.%s.setter:raises" % name, "the setter raised %s" % exc_kind(e), case, [k, op])
+                return
+        ctx.count("history:op:%s%s" % ("radius" if name in RADII else name, ":refused" if raised else ""))
+        impl.append((raised, measures_of(p, [k + 1] + verts0.tolist(), aligned0)))
+    try:
+        r = ctx.driver.F("cp.history", *toks, len(case["history"]), *optoks)
+    except ModelRaise as e:
+        ctx.disagree("cp.history", case, "model raised " + e.kind)
+        return
+    # parse: measures (14 doubles), then per op: flag + 14 doubles
+    pos = 0
+    model = []
+    for k in range(len(impl)):
+        flag = False
+        if k > 0:
+            flag = bool(r[pos])
+            pos += 1
+        m = r[pos:pos + 14]
+        pos += 14
+        model.append((flag, {"volume": m[0], "area": m[1], "centroid": np.array(m[2:5]),
+                             "inertia": np.array(m[5:14]).reshape(3, 3)}))
+    info = case.get("info", {})
+    aligned = bool(info.get("thin_aligned"))
+    rk = 0.0
+    for k, ((ri, oi), (rm, om)) in enumerate(zip(impl, model)):
+        if ri != rm:
+            ctx.disagree("cp.history:raises", case, [k, ri, rm])
+            return
+        Lk, dk = oi["L"], oi["diam"]
+        # the stored volume is carried along incrementally: the loss of an earlier, farther placement stays in it
+        rk = max(rk, oi["rho"])
+        rB = rk + 64 * EPS * Lk ** 3 / max(abs(om["volume"]), 1e-300)     # Float model's own determinants, see eval_case
+        if not (ctx.close_enough(oi["volume"], om["volume"], Lk ** 3)
+                and ctx.close_enough(oi["area"], om["area"], (1e-9 + rB) * dk ** 2, tol=1.0)
+                and ctx.close_enough(oi["total_area"], oi["area"], dk ** 2)
+                and ctx.close_enough(oi["face_sum"], oi["area"], dk ** 2)
+                and ctx.close_enough(oi["centroid"], om["centroid"], (1e-9 + rB) * Lk, tol=1.0)
+                and ctx.close_enough(oi["inertia"], om["inertia"],
+                                     1e-9 * Lk ** 2 * dk ** 3 + 4 * rB * abs(om["volume"]) * Lk ** 2, tol=1.0)):
+            ctx.disagree("cp.history:step", case, [k, {a: oi[a] for a in ("volume", "area", "centroid", "inertia")}, om])
+            break
+    # C: after the history, the getters against the exact integrals over the hull of the CURRENT vertices
+    pv = np.array(p.vertices, dtype=float)
+    try:
+        tets, tris, hull = gen.cone_tets(pv)
+    except Exception as e:  # noqa: BLE001
+        ctx.fail("ConvexPolyhedron:history:vertices", "the vertices after the history have no hull", case, repr(e))
+        return
+    dd = gen.diameter(pv)
+    Lh = dd + float(np.linalg.norm(pv.mean(axis=0)))
+    area = float(sum(np.linalg.norm(np.cross(t[1] - t[0], t[2] - t[0])) / 2 for t in tris))
+    q = ctx.driver.Q("spec.solid", L([np.asarray(t) for t in tets]))
+    cen = np.array([float(x) for x in q[19:22]])
+    I = np.array([float(x) for x in q[10:19]]).reshape(3, 3)
+    rh = max(rk, rho_thin(pv, Lh, float(q[0]), aligned))
+    last = impl[-1][1]
+    bad = []
+    if not ctx.close_enough(last["volume"], float(q[0]), Lh ** 3):
+        bad.append(["volume", last["volume"], float(q[0])])
+    if not ctx.close_enough(last["area"], area, (1e-9 + rh) * dd ** 2, tol=1.0):
+        bad.append(["surface_area", last["area"], area])
+    if not ctx.close_enough(last["total_area"], area, dd ** 2):
+        bad.append(["get_face_area('total')", last["total_area"], area])
+    if not ctx.close_enough(last["face_sum"], area, dd ** 2):
+        bad.append(["sum(get_face_area())", last["face_sum"], area])
+    if not ctx.close_enough(last["centroid"], cen, (1e-9 + rh) * Lh, tol=1.0):
+        bad.append(["centroid", last["centroid"], cen])
+    elif not ctx.close_enough(last["centroid"], cen, Lh):
+        ctx.fail("ConvexPolyhedron.centroid:accuracy:thin-solid", "centroid of a thin solid after a history differs "
+                 "from the exact integral by more than 1e-9 of the size (cancellation in the determinant volume / in "
+                 "the cross products)", case, [last["centroid"], cen, thinness(pv), rh])
+        ctx.count("thin:centroid-accuracy-finding")
+    if not ctx.close_enough(last["inertia"], I, 1e-9 * Lh ** 2 * dd ** 3 + 4 * rh * abs(float(q[0])) * Lh ** 2, tol=1.0):
+        bad.append(["inertia_tensor", last["inertia"], I])
+    if bad:
+        ctx.fail("ConvexPolyhedron:history:%s" % bad[0][0], "after a history of setters a cached / incrementally updated "
+                 "measure differs from the exact integral over the current solid", case, bad)
+    # the centroid setter lands where it was told to (cp_setCentroid_exact), when it was the last operation
+    lastop = case["history"][-1]
+    if lastop["op"] in ("centroid", "center"):
+        tgt = np.array(optoks[-1], dtype=float)
+        if not ctx.close_enough(last["centroid"], tgt, (1e-9 + rh) * Lh, tol=1.0):
+            ctx.fail("ConvexPolyhedron.centroid.setter:target", "after centroid = c the centroid is not c", case,
+                     [last["centroid"], tgt])
+
+
+def facet_sums(p, obs, facets, relabel=None):
+    """per independent facet: the sum of the reported areas of the implementation's faces inside it and the list of
+    (area, centroid) of those faces; `relabel[i]` = label in `facets` of the object's vertex i.
+    Third value: a face that lies in no facet (None when all do)."""
+    sums = {}
+    cents = {}
+    for k, face in enumerate(p.faces):
+        key = None
+        fs = set(int(i) if relabel is None else int(relabel[int(i)]) for i in face)
+        # the facet that contains the face's vertices; among several (nearly coplanar neighbours) the one whose
+        # centroid is nearest to the face's reported centroid
+        cands = [fk for fk, (vs, area, cent) in facets.items() if fs <= vs]
+        if cands:
+            key = min(cands, key=lambda fk: float(np.linalg.norm(facets[fk][2] - obs["face_centroids"][k])))
+        if key is None:
+            return sums, cents, [k, sorted(fs)]
+        sums[key] = sums.get(key, 0.0) + obs["face_areas"][k]
+        cents.setdefault(key, []).append((obs["face_areas"][k], obs["face_centroids"][k]))
+    return sums, cents, None
+
+
 def independent_facets(v, hull):
-    """facets of the hull: {id: (vertex index set, area, centroid)} from scipy's hull, merged at 1e-9."""
+    """facets of the hull: {id: (vertex index set, area, centroid)} from scipy's hull, merged at 1e-9 (unit normals
+    absolutely, offsets relative to the size of the point set)."""
     groups = []
+    size = float(np.max(np.abs(v))) + 1e-300
+    tol = np.array([1e-9, 1e-9, 1e-9, 1e-9 * size])
     for simp, eq in zip(hull.simplices, hull.equations):
         for g in groups:
-            if np.all(np.abs(g["eq"] - eq) < 1e-9 * max(1.0, abs(eq[3]))):
+            if np.all(np.abs(g["eq"] - eq) < tol):
                 g["simps"].append(simp)
                 break
         else:
@@ -213,8 +589,105 @@ def independent_facets(v, hull):
     return out
 
 
+# --------------------------------------------------------------------------- generators of this property
+
+
+def _base_in_convex_position(rng, kinds, margin=1e-4, tries=40):
+    for _ in range(tries):
+        kind, v0 = gen.convex_base(rng, kinds[int(rng.integers(len(kinds)))])
+        if len(v0) >= 4 and len(v0) <= 40 and gen.in_convex_position(v0, margin=margin):
+            return kind, v0
+    kind, v0 = gen.convex_base(rng, "box")
+    return kind, v0
+
+
+def thin_solid(rng):
+    """needles and flats of aspect 1e-3 .. 1e-6.  Convex position is decided on the O(1) base shape (margin 1e-4 of its
+    diameter) and is preserved by the diagonal scaling.  Placements: `aligned` (axis aligned, centred on the centroid
+    of a centrally symmetric base: relative per-component comparison), `rotated` (random or near-axis rotation, no
+    offset), `offset` (aspect >= 1e-4 only, |offset| up to 10 diameters: the first moment of a thinner solid that far
+    out is not determined to 1e-9 by double coordinates)."""
+    placement = ["aligned", "rotated", "offset"][int(rng.integers(3))]
+    sym = ["box", "prism", "lattice", "zonotope"]
+    kind, v0 = _base_in_convex_position(rng, sym if placement == "aligned" else sym + ["ellipsoid", "antiprism",
+                                                                                       "pyramid", "dipyramid"])
+    lo = 4.0 if placement == "offset" else 6.0
+    asp = float(10 ** -rng.uniform(3.0, lo))
+    if rng.random() < 0.5:
+        asp = float(2.0 ** np.round(np.log2(asp)))      # exact power of two: the scaled coordinates stay exact
+    shape = "needle" if rng.random() < 0.5 else "flat"
+    sc = np.ones(3)
+    axes = rng.permutation(3)
+    if shape == "needle":
+        sc[axes[0]] = asp
+        sc[axes[1]] = asp * float(np.exp(rng.uniform(0, 1)))
+    else:
+        sc[axes[0]] = asp
+    v = v0 * sc
+    info = {"kind": "thin:%s:%s" % (shape, placement), "base": kind, "aspect": asp, "n": len(v),
+            "rotated": placement != "aligned", "offset_diams": 0.0, "scale": 1.0}
+    if placement == "aligned":
+        info["thin_aligned"] = True
+    else:
+        R = gen.near_axis_rotation(rng) if rng.random() < 0.4 else gen.random_rotation(rng)
+        v = v @ R.T
+        if placement == "offset":
+            dirn = rng.normal(size=3)
+            dirn /= np.linalg.norm(dirn)
+            info["offset_diams"] = float(rng.uniform(0, 10))
+            v = v + dirn * info["offset_diams"] * gen.diameter(v)
+    v = v[rng.permutation(len(v))]
+    return v, info
+
+
+def perturbed_lattice(rng):
+    """many exactly coplanar facets made NEARLY coplanar: a lattice polytope / zonotope / prism whose coordinates are
+    perturbed by 1e-16.5 .. 1e-6 of the diameter (the smallest perturbations round away on some coordinates).  Qhull
+    either merges such facets (one face of slightly non-planar simplices) or keeps them apart (equations that differ by
+    about the 2e-15 of `_combine_simplices`): the tolerance path of the face grouping."""
+    kind, v0 = _base_in_convex_position(rng, ["lattice", "zonotope", "prism", "box", "dipyramid"], margin=1e-3)
+    d = gen.diameter(v0)
+    mag = float(10 ** -rng.uniform(6.0, 16.5)) * d
+    v = v0 + rng.uniform(-1, 1, size=v0.shape) * mag
+    if rng.random() < 0.5:
+        v = v @ gen.random_rotation(rng).T
+    if rng.random() < 0.3:
+        dirn = rng.normal(size=3)
+        dirn /= np.linalg.norm(dirn)
+        v = v + dirn * float(rng.uniform(0, 3)) * d
+    v = v[rng.permutation(len(v))]
+    return v, {"kind": "perturbed:" + kind, "perturbation": mag / d, "n": len(v), "rotated": True,
+               "offset_diams": 0.0, "scale": 1.0}
+
+
+def big_zonotope(rng):
+    """zonotope with 6-7 integer generators: up to 42 facets, all of them parallelograms or larger zones of exactly
+    coplanar simplices"""
+    import itertools
+    for _ in range(20):
+        g = rng.integers(-3, 4, size=(int(rng.integers(6, 8)), 3)).astype(float)
+        g = g[np.any(g != 0, axis=1)]
+        if len(g) < 3 or np.linalg.matrix_rank(g) < 3:
+            continue
+        pts = np.array([np.array(sg) @ g for sg in itertools.product([-1, 1], repeat=len(g))])
+        v = gen.hull_vertices_only(pts)
+        if 8 <= len(v) <= 60 and gen.in_convex_position(v):
+            v, info = gen.place(rng, v)
+            info.update(kind="zonotope-big", n=len(v))
+            return v, info
+    return gen.convex_solid(rng, "zonotope")
+
+
 def make_case(rng, ctx):
-    v, info = gen.convex_solid(rng)
+    u = rng.random()
+    if u < 0.55:
+        v, info = gen.convex_solid(rng)
+    elif u < 0.75:
+        v, info = thin_solid(rng)
+    elif u < 0.90:
+        v, info = perturbed_lattice(rng)
+    else:
+        v, info = big_zonotope(rng)
     ctx.count("kind:" + info["kind"])
     ctx.count("rotated" if info["rotated"] else "axis-aligned")
     ctx.count("offset>0" if info["offset_diams"] > 0 else "offset=0")
@@ -226,10 +699,36 @@ def make_case(rng, ctx):
         v = v * (2.0 ** k)
         info = dict(info, pow2=k)
         ctx.count("extreme-size:2^%s" % ("+" if k > 0 else "-"))
-    return {"vertices": v.tolist(), "info": info, "perm": rng.permutation(len(v)).tolist()}
+    case = {"vertices": v.tolist(), "info": info, "perm": rng.permutation(len(v)).tolist()}
+    if rng.random() < 0.34:
+        case["history"] = draw_history(rng)
+    return case
+
+
+def fixed_cases():
+    """minimised inputs kept from earlier findings (evaluated in every run)"""
+    # the known finding (centroid of a needle that is not axis aligned): 5 points, aspect 1e-6, rotated by the rational
+    # rotation [[1,2,2],[2,1,-2],[2,-2,1]]/3.  Reported centroid [0.01388895, 0.02777776, 0.02777762], exact
+    # [0.01388885, 0.02777769, 0.02777788]: 2.6e-7, a quarter of the thickness.
+    R = np.array([[1, 2, 2], [2, 1, -2], [2, -2, 1]]) / 3.0
+    v = (np.array([[1, 0, 0], [-1, 0, 0], [0, 1, .25], [0, -.5, 1], [.25, -1, -1]]) * [1, 1e-6, 1e-6]) @ R.T
+    yield {"vertices": v.tolist(), "perm": [4, 2, 0, 3, 1],
+           "info": {"kind": "thin:needle:rotated", "aspect": 1e-6, "n": 5, "rotated": True, "offset_diams": 0.0,
+                    "scale": 1.0, "fixed": "needle-centroid"}}
+    # a frustum-like solid with trapezoid faces through a history that resizes by a radius setter (r2-C01-2's pattern)
+    v = np.array([[2, 2, 0], [2, -2, 0], [-2, 2, 0], [-2, -2, 0], [1, 1, 3], [1, -1, 3], [-1, 1, 3], [-1, -1, 3]], float)
+    yield {"vertices": (v + [3.0, -2.0, 1.0]).tolist(), "perm": [7, 6, 5, 4, 3, 2, 1, 0],
+           "history": [{"op": "minimal_centered_bounding_sphere_radius", "factor": 0.5},
+                       {"op": "centroid", "to": [0.5, -1.5, 2.0], "relative": True},
+                       {"op": "maximal_centered_bounded_sphere_radius", "factor": 3.0}],
+           "info": {"kind": "fixed:frustum", "n": 8, "rotated": False, "offset_diams": 0.6, "scale": 1.0}}
 
 
 def run(ctx):
+    for case in fixed_cases():
+        ctx.count("kind:" + case["info"]["kind"])
+        ctx.case(case)
+        eval_case(ctx, case)
     n = ctx.budget(60, 1500)
     for _ in range(n):
         case = make_case(ctx.rng, ctx)
@@ -242,6 +741,8 @@ def run(ctx):
     for fam, name, v in tabs:
         v2, info = gen.place(ctx.rng, v, scale=1.0)
         case = {"vertices": v2.tolist(), "info": dict(info, kind="tabulated:" + fam, name=name)}
+        if ctx.rng.random() < 0.25:
+            case["history"] = draw_history(ctx.rng)
         ctx.count("kind:tabulated")
         ctx.case(case)
         eval_case(ctx, case)
